@@ -91,6 +91,9 @@ pub mod path {
             ensures r ==> (w.fs.files.contains_key(resolve(w.fs, self@)) || w.fs.dirs.contains(resolve(w.fs, self@))),
                 w.healthy ==> (r <==> (w.fs.files.contains_key(resolve(w.fs, self@)) || w.fs.dirs.contains(resolve(w.fs, self@)))),
         { unimplemented!() }
+        /// the last component (as an OS string: its text is not modelled)
+        #[verifier::external_body]
+        pub fn file_name(&self) -> (r: Option<&crate::shims::std::ffi::OsStr>) { unimplemented!() }
         /// follows symbolic links: a regular file is there (whatever it holds)
         #[verifier::external_body]
         pub fn is_file(&self, Tracked(w): Tracked<&World>) -> (r: bool)
